@@ -48,6 +48,9 @@ type fault struct {
 	// retryFirst != nil: the faulty hello is the SECOND hello of the connection: retryFirst (valid, accepted) is fed to
 	// NewConn, the backend answers with a HelloRetryRequest, and stream then arrives at Conn.Read
 	retryFirst []byte
+	// retryPartial: in the same Write as the HelloRetryRequest the backend also hands over the first 3 bytes of its next
+	// record (a segment boundary inside a record): the alert must still reach the client intact
+	retryPartial bool
 	// mayBeValid: the mutation can yield a hello that is still well formed; then
 	// transparent handling (not an abort) is admissible too.
 	mayBeValid bool
@@ -388,6 +391,10 @@ func evalRetried(r *ev.Run, key echx.KeyPair, f fault) {
 		return
 	}
 	hrr := echx.HRRRecord(tlsref.DetBytes("sid", 32))
+	if f.retryPartial {
+		hrr = append(hrr, 0x14, 0x03, 0x03) // ... plus the first bytes of the change_cipher_spec record that follows
+		k += ":backend-record-pending"
+	}
 	if n, err, p := sess.BackendSend(hrr); err != nil || p != nil || n != len(hrr) {
 		r.Violation("retried:hrr-write", fmt.Sprintf("writing the HelloRetryRequest: %d %v %v", n, err, p), replay)
 		return
@@ -423,7 +430,7 @@ func evalRetried(r *ev.Run, key echx.KeyPair, f fault) {
 			r.Violation("no-close-after-alert", "transport not closed after the fatal alert (fault "+f.Name+")", replay)
 		}
 	}
-	r.Eval(string(f.stream)+"retried", f.Name+" -> "+oc)
+	r.Eval(string(f.stream)+fmt.Sprint("retried", f.retryPartial), f.Name+" -> "+oc)
 }
 
 func evalFault(r *ev.Run, key echx.KeyPair, f fault) {
@@ -494,7 +501,7 @@ func alertKey(out []byte) string {
 }
 
 func Run(r *ev.Run) {
-	r.Rule("fault enumeration (E1): for each base hello (3 AEADs x compression on/off x ECH extension first/middle/last) the catalogue: ech_outer_extensions in the outer hello at every position; ECH type inner at every position; unknown ECH types; authentic payload with 5 non-matching/absent outer SNIs; inner without / with outer-type ECH extension; inner not offering TLS 1.3; every padding byte x every bit non-zero; reference list odd/short/long/empty/out-of-order (every adjacent swap)/repeated (every element)/absent (every element)/naming 0xfe0d,0xfd00 at every position/two markers; +-1 on every length field of outer and of encoded inner (re-sealed); record cut at every byte (then end of stream / a non-handshake record / a garbage continuation); non-handshake first record; every sealed-spec entry of the catalogue (outer SNI, inner ECH extension, TLS 1.3, padding, reference-list faults, malformed inner extensions) ALSO applied to the hello that follows a HelloRetryRequest (history: valid first hello, backend HRR, faulty second hello sealed at sequence number 1; Conn.Read is the call that meets it); plus all pairs of single faults that compose (multi-fault). distinct = distinct (stream, keys?) inputs")
+	r.Rule("fault enumeration (E1): for each base hello (3 AEADs x compression on/off x ECH extension first/middle/last) the catalogue: ech_outer_extensions in the outer hello at every position; ECH type inner at every position; unknown ECH types; authentic payload with 5 non-matching/absent outer SNIs; inner without / with outer-type ECH extension; inner not offering TLS 1.3; every padding byte x every bit non-zero; reference list odd/short/long/empty/out-of-order (every adjacent swap)/repeated (every element)/absent (every element)/naming 0xfe0d,0xfd00 at every position/two markers; +-1 on every length field of outer and of encoded inner (re-sealed); record cut at every byte (then end of stream / a non-handshake record / a garbage continuation); non-handshake first record; every sealed-spec entry of the catalogue (outer SNI, inner ECH extension, TLS 1.3, padding, reference-list faults, malformed inner extensions) ALSO applied to the hello that follows a HelloRetryRequest (history: valid first hello, backend HRR, faulty second hello sealed at sequence number 1; Conn.Read is the call that meets it; also with the first bytes of the backend's next record already handed to Write when the faulty hello arrives); plus all pairs of single faults that compose (multi-fault). distinct = distinct (stream, keys?) inputs")
 	r.Assume("reference sender validated against crypto/tls", "admissible error classes per fault are taken from the property statement and draft §5.1/§7/§7.1; for +-1 length mutations that leave a well-formed hello, transparent handling is admissible")
 	key := echx.NewKey("c04", 42, echx.AllSuites, pubName)
 	if err := c03.SelfValidate(echx.NewKey("c03", 7, echx.AllSuites, "public.example")); err != nil {
@@ -508,7 +515,14 @@ func Run(r *ev.Run) {
 					continue
 				}
 				all = append(all, generate(key, base{aead, comp, pos}, r.Thorough())...)
-				all = append(all, generateMode(key, base{aead, comp, pos}, r.Thorough(), true)...)
+				rf := generateMode(key, base{aead, comp, pos}, r.Thorough(), true)
+				all = append(all, rf...)
+				for _, f := range rf {
+					if !strings.Contains(f.Name, "nonzero-padding") || strings.HasSuffix(f.Arg, "bit0") {
+						f.retryPartial = true
+						all = append(all, f)
+					}
+				}
 			}
 		}
 	}
